@@ -43,7 +43,7 @@ namespace Pm.Props.C01
 open Pm Pm.Client Pm.Daemon
 open Pm.Daemon.Enq
 open Pm.Daemon.AliasPf (isAlias membersOf standsFor exAls exNested)
-open Pm.Dev2 (Dev Action Stmt Plug ExecCtx Oracle Out stmtSend hsprintf rangedNames topCtx)
+open Pm.Dev2 (Dev Action Stmt Plug ExecCtx Oracle Out stmtSend hsprintf rangedNames topCtx clipTo)
 
 /-- The six power commands are exactly the commands that are not queries (`_is_query_action`). -/
 theorem C01_power_commands (com : Com) :
@@ -178,30 +178,70 @@ theorem C01_install_cases (w : W) (c : Cli) (com : Com) (names : List Name) :
      (install w c com names).2 = { c with cmd := some { com, names, error := false, al := w.alNext, pending := installTotal (comIdx com) (names.map ofChars) c.id c.telemetry w.alNext w.devs } }) :=
   install_cases w c com names
 
-/-- The wire, singlet.  The first execution of a `send` in a context whose plug list is the one plug `p` appends to
-    the device's output buffer the format with `%s` replaced by `p.name`, the plug name configured for the node. -/
+/-- The wire, singlet.  The first execution of a `send` in a context whose plug list is the one plug `p` queues, behind what
+    the device's output buffer holds, the format with `%s` replaced by `p.name`, the plug name configured for the node.
+    (Changed when the capacity of `dev->to` was modelled: the statement read `toBuf := d.toBuf ++ …`; the buffer holds 65536
+    bytes and beyond that the *oldest queued* bytes are overwritten, `clipTo` = the last 65536 bytes.  The text the daemon
+    meant to send, `.sent …`, is as before.  Below the limit the old statement holds: `C01_wire_singlet_below`.) -/
 theorem C01_wire_singlet (d : Dev) (a : Action) (o : Oracle) (e : ExecCtx) (fmt : Bytes) (p : Plug)
     (hp : e.processing = false) (hs : e.plugs = some [p]) :
-    (stmtSend d a o e fmt).dev = { d with toBuf := d.toBuf ++ hsprintf fmt (some p.name) } ∧
+    (stmtSend d a o e fmt).dev = { d with toBuf := clipTo (d.toBuf ++ hsprintf fmt (some p.name)) } ∧
     (stmtSend d a o e fmt).out.head? = some (.sent (hsprintf fmt (some p.name))) :=
   stmtSend_singlet d a o e fmt p hp hs
 
+/-- The wire, singlet, below the limit (the statement as it read before): if the text fits behind what is queued, it is appended. -/
+theorem C01_wire_singlet_below (d : Dev) (a : Action) (o : Oracle) (e : ExecCtx) (fmt : Bytes) (p : Plug)
+    (hp : e.processing = false) (hs : e.plugs = some [p]) (hfit : (d.toBuf ++ hsprintf fmt (some p.name)).length ≤ 65536) :
+    (stmtSend d a o e fmt).dev = { d with toBuf := d.toBuf ++ hsprintf fmt (some p.name) } ∧
+    (stmtSend d a o e fmt).out.head? = some (.sent (hsprintf fmt (some p.name))) :=
+  stmtSend_singlet_below d a o e fmt p hp hs hfit
+
 /-- The wire, ranged.  With two plugs or more, `%s` is replaced by the sorted, range-compressed list of the
-    configured plug names (`rangedNames`); if the hostlist sort asserts (F19) nothing is written at all. -/
+    configured plug names (`rangedNames`); if the hostlist sort asserts (F19) nothing is written at all.
+    (Changed as `C01_wire_singlet`: `clipTo` of the concatenation; below the limit `C01_wire_ranged_below`.) -/
 theorem C01_wire_ranged (d : Dev) (a : Action) (o : Oracle) (e : ExecCtx) (fmt : Bytes) (p q : Plug) (r : List Plug)
     (hp : e.processing = false) (hs : e.plugs = some (p :: q :: r)) :
     match rangedNames ((p :: q :: r).map (·.name)) with
-    | some n => (stmtSend d a o e fmt).dev = { d with toBuf := d.toBuf ++ hsprintf fmt (some n) } ∧
+    | some n => (stmtSend d a o e fmt).dev = { d with toBuf := clipTo (d.toBuf ++ hsprintf fmt (some n)) } ∧
                 (stmtSend d a o e fmt).out.head? = some (.sent (hsprintf fmt (some n)))
     | none => (stmtSend d a o e fmt).dev = d ∧ (stmtSend d a o e fmt).out = [.abortAssert "hostlist_sort assert in _process_send"] :=
   stmtSend_ranged d a o e fmt p q r hp hs
 
-/-- The wire, `_all`.  Without a plug list (or with an empty one) the format is written with no argument. -/
+/-- The wire, ranged, below the limit (the statement as it read before, for the case that the sort succeeds). -/
+theorem C01_wire_ranged_below (d : Dev) (a : Action) (o : Oracle) (e : ExecCtx) (fmt : Bytes) (p q : Plug) (r : List Plug)
+    (hp : e.processing = false) (hs : e.plugs = some (p :: q :: r)) (n : Bytes)
+    (hn : rangedNames ((p :: q :: r).map (·.name)) = some n) (hfit : (d.toBuf ++ hsprintf fmt (some n)).length ≤ 65536) :
+    (stmtSend d a o e fmt).dev = { d with toBuf := d.toBuf ++ hsprintf fmt (some n) } ∧
+    (stmtSend d a o e fmt).out.head? = some (.sent (hsprintf fmt (some n))) :=
+  stmtSend_ranged_below d a o e fmt p q r hp hs n hn hfit
+
+/-- The wire, `_all`.  Without a plug list (or with an empty one) the format is written with no argument.
+    (Changed as `C01_wire_singlet`: `clipTo` of the concatenation; below the limit `C01_wire_all_below`.) -/
 theorem C01_wire_all (d : Dev) (a : Action) (o : Oracle) (e : ExecCtx) (fmt : Bytes)
     (hp : e.processing = false) (hs : e.plugs = none ∨ e.plugs = some []) :
-    (stmtSend d a o e fmt).dev = { d with toBuf := d.toBuf ++ hsprintf fmt none } ∧
+    (stmtSend d a o e fmt).dev = { d with toBuf := clipTo (d.toBuf ++ hsprintf fmt none) } ∧
     (stmtSend d a o e fmt).out.head? = some (.sent (hsprintf fmt none)) :=
   stmtSend_all d a o e fmt hp hs
+
+/-- The wire, `_all`, below the limit (the statement as it read before). -/
+theorem C01_wire_all_below (d : Dev) (a : Action) (o : Oracle) (e : ExecCtx) (fmt : Bytes)
+    (hp : e.processing = false) (hs : e.plugs = none ∨ e.plugs = some []) (hfit : (d.toBuf ++ hsprintf fmt none).length ≤ 65536) :
+    (stmtSend d a o e fmt).dev = { d with toBuf := d.toBuf ++ hsprintf fmt none } ∧
+    (stmtSend d a o e fmt).out.head? = some (.sent (hsprintf fmt none)) :=
+  stmtSend_all_below d a o e fmt hp hs hfit
+
+/-- non-vacuity of the no-overflow hypotheses of `C01_wire_singlet_below` / `C01_wire_ranged_below` / `C01_wire_all_below`: the
+    example device's buffer is empty and `on 1\n`, `on [1,3]\n`, `on *\n` are a few bytes -/
+example : (exDev.toBuf ++ hsprintf (bstr "on %s\n") (some exP1.name)).length ≤ 65536 ∧
+    rangedNames ([exP1, exP3].map (·.name)) = some (bstr "[1,3]") ∧
+    (exDev.toBuf ++ hsprintf (bstr "on %s\n") (some (bstr "[1,3]"))).length ≤ 65536 ∧
+    (exDev.toBuf ++ hsprintf (bstr "on *\n") none).length ≤ 65536 := by decide +kernel
+
+/-- The wire beyond the limit: a command text of at most 65536 bytes is never cut — what gives way is what was queued *before*
+    it (`toDropped` oldest bytes: telnet answers or the unsent rest of earlier texts); the text is queued whole, last. -/
+theorem C01_wire_text_whole (old s : Bytes) (hs : s.length ≤ 65536) :
+    clipTo (old ++ s) = old.drop (Pm.Dev2.toDropped old s) ++ s :=
+  Pm.Dev2.clipTo_append_of_fits old s hs
 
 /-- The wire, second visit.  A `send` that is waiting for its bytes to drain writes nothing. -/
 theorem C01_wire_again (d : Dev) (a : Action) (o : Oracle) (e : ExecCtx) (fmt : Bytes) (hp : e.processing = true) :
@@ -210,11 +250,13 @@ theorem C01_wire_again (d : Dev) (a : Action) (o : Oracle) (e : ExecCtx) (fmt : 
 
 /-- "Each device is addressed with the plug name configured for that node": a `send` run in the context a freshly
     appended singlet action starts with, on the device in whatever state `d'` it then is, writes the format filled with
-    `p.name` where `p` is a plug of this device whose node the request names. -/
+    `p.name` where `p` is a plug of this device whose node the request names.
+    (Changed with the capacity of `dev->to`: `clipTo (d'.toBuf ++ …)` where it read `d'.toBuf ++ …`; by `C01_wire_text_whole`
+    the text itself is whole whenever it is no longer than the buffer.) -/
 theorem C01_wire_fresh_singlet (d : Dev) (com : Nat) (targets : List Bytes) (cid : Nat) (tele : Bool) (al : Nat)
     (a : Action) (h : a ∈ newActs d.plugs d.scripts com targets cid tele al) (p : Plug) (hp : a.outerPlugs = some [p])
     (d' : Dev) (o : Oracle) (fmt : Bytes) :
-    (stmtSend d' a o (topCtx a) fmt).dev.toBuf = d'.toBuf ++ hsprintf fmt (some p.name) ∧
+    (stmtSend d' a o (topCtx a) fmt).dev.toBuf = clipTo (d'.toBuf ++ hsprintf fmt (some p.name)) ∧
     p ∈ d.plugs ∧ ∃ n, p.node = some n ∧ n ∈ targets :=
   fresh_singlet_send h hp d' o fmt
 
